@@ -13,10 +13,11 @@ def profile(family, big=False):
     if family == '1d':
         return ng.Profile(family='1d', pads=('causal', 'same', 'none'), standalone_bn=True,
                           exclude=True, reuse=True, multi_input=True, fixtures=True,
-                          max_blocks=7 if big else 5, kmax=5, min_blocks=2, bn=True)
+                          max_blocks=7 if big else 5, kmax=5, min_blocks=2, bn=True,
+                          exclude_propagating=True)
     return ng.Profile(family='2d', standalone_bn=True, exclude=True, reuse=True,
                       multi_input=True, fixtures=True, max_blocks=7 if big else 5, min_blocks=2, bridge=True,
-                      pads=('causal', 'same', 'none'))
+                      pads=('causal', 'same', 'none'), exclude_propagating=True)
 
 
 @st.composite
@@ -174,9 +175,31 @@ def oracle(case) -> Result:
     return res
 
 
+def enum_fixtures(tier):
+    """Every hand-written topology of the grammar (nested / same-producer concatenations, MLPs on
+    the raw input, an excluded depthwise layer, ...) with four deterministic mask patterns written
+    into EVERY width group, pinned ones included."""
+    import copy
+    pats = {'alt0': lambda i: i % 2 == 0, 'alt1': lambda i: i % 2 == 1,
+            'none': lambda i: False, 'first': lambda i: i == 0}
+    for fam in ('1d', '2d'):
+        for k, spec in enumerate(ng._fixtures(fam, 'causal')):
+            fixed = pu.fixed_ids(spec)
+            group_of, frozen, members = ng.width_groups(spec, fixed)
+            shapes = ng.infer_shapes(spec)
+            for pname, f in pats.items():
+                g = {rep: [bool(f(i)) for i in range(shapes[rep][0])]
+                     for rep in sorted(set(group_of.values())) if not rep.startswith('x')}
+                yield {'spec': copy.deepcopy(spec), 'masks': {'g': g, 't': {}}, 'mode': 'names',
+                       'plain': [], 'vseed': k, 'wseed': k, 'fold_bn': bool(k % 2)}
+
+
 CHECK = Check(
     prop='C09',
     parts=[
+        Part('fixtures', oracle, enumerate=enum_fixtures,
+             exhaustive_note='every hand-written topology of the grammar (both families) x four '
+                             'mask patterns written into every width group'),
         Part('nets', oracle, strategy=cases(),
              budget={'quick': 600, 'thorough': 1500}, shards={'quick': 1, 'thorough': 16}),
         Part('nets-big', oracle, strategy=cases(big=True),
